@@ -425,7 +425,7 @@ func (r *run) converge(finalTip chainhash.Hash, finalUtxo lab.UtxoSet) string {
 
 func main() {
 	r := ev.Start("C04")
-	r.Rule("for each workload x utxo-cache size: crash before every durable commit k (db.Update) of the run, reopen; nested: crash before every commit j of that recovery, reopen again; a case (workload, cache, k, j) is non-trivial when the crash point was reached. Part 2: for each workload x cache x ffldb flush regime the block-file I/O is recorded; every log prefix x every subset (capped) of the writes not covered by a later Sync lost x last write torn gives a crash image (block files + the leveldb state of the newest flush in the prefix); every distinct image is opened with database.Open + blockchain.New and judged by the same oracle")
+	r.Rule("for each workload x utxo-cache size: crash before every durable commit k (db.Update) of the run, reopen; nested: crash before every commit j of that recovery, reopen again; a case (workload, cache, k, j) is non-trivial when the crash point was reached. Part 2: for each workload x cache x ffldb flush regime the block-file I/O is recorded; every log prefix x every subset of the newest cap (see crash_images.subset_cap_bits) writes, plus all, of the writes not covered by a later Sync lost x last write torn gives a crash image (block files + the newest OBSERVED state of the leveldb directory inside the prefix); every distinct image is opened with database.Open + blockchain.New and judged by the same oracle")
 	r.Assume("part 1: ffldb makes a prefix of the committed updates durable and reopens to it; crashes are placed between commits (part 2 drops this assumption)")
 	r.Assume("lab scripts are OP_TRUE / OP_RETURN")
 	_ = wire.OutPoint{}
